@@ -163,6 +163,7 @@ func seqHistory(c *core.Ctx, targets []Term, seed int64, n int, tvSeen map[strin
 		w.checkResult(pred, ev, r) // oracle only: prediction = observation
 		w.observe()
 	}
+	w.clientFuse()
 	w.finalOracles(tvSeen)
 	return h, w
 }
